@@ -100,3 +100,7 @@ def run(ctx):
     from .. import spaces as _spaces
 
     _spaces.localised_inherit(ctx)  # singular parts, sparse forms, potentials and FMM point maps are computed on the localised companion space
+    from .. import singular as _sing
+
+    _sing.check_segments(ctx)  # (tools/wiring.py) the singular part of every dense operator: per-pair segments, offsets
+    _sing.check_offsets(ctx)
